@@ -16,7 +16,7 @@ import sys
 import time
 
 VERIF = os.path.dirname(os.path.dirname(os.path.abspath(__file__)))
-REPO = "/repo"
+REPO = os.environ.get("VERIF_SBX_REPO", "/repo")  # the sandbox override is only used by tools/sbx.sh (seeded-change trials)
 WORK = os.path.join(VERIF, "work")
 SPEC = os.path.join(VERIF, "spec")
 HARNESS = os.path.join(VERIF, "harness")
@@ -235,29 +235,43 @@ def tlc_coverage(out):
     return cov
 
 
-def validate_traces(module, traces, tag, workers=4, timeout=900, cfg=None, env=None):
+def validate_traces(module, traces, tag, workers=4, timeout=900, cfg=None, env=None, chunk=1500):
     """Validate projected traces (list of dicts with 'id') against spec/<module>.tla.
-    Returns dict(accepted=set(ids), rejected=[ids], states, distinct, out)."""
+    Returns dict(accepted=set(ids), rejected=[ids], states, distinct, out).
+    Large inputs are validated in chunks (one TLC run each); a run that times out is repeated once with
+    three times the limit (the machine may be busy) before it is reported as a tool error."""
     ensure_dirs()
     if not traces:
         return {"accepted": set(), "rejected": [], "states": 0, "distinct": 0, "out": "", "wall": 0}
+    acc, rej = set(), []
+    states = distinct = 0
+    wall = 0.0
+    out = ""
     tf = os.path.join(WORK, "%s.traces.ndjson" % tag)
-    with open(tf, "w") as f:
-        for t in traces:
-            f.write(json.dumps(t) + "\n")
-    e = {"TRACES": tf}
-    if env:
-        e.update(env)
-    r = run_tlc(module, cfg=cfg or (module + ".cfg"), env=e, workers=workers, timeout=timeout)
-    if r["timeout"]:
-        raise ToolError("TLC timed out validating %s traces with %s" % (len(traces), module))
-    if "No error has been found" not in r["out"]:
-        raise ToolError("TLC failed on %s:\n%s" % (module, r["out"][-3000:]))
-    acc = set(re.findall(r'<<"ACCEPT", "([^"]+)"(?:, [^>]*)?>>', r["out"]))
-    ids = [t["id"] for t in traces]
-    rej = [i for i in ids if i not in acc]
-    return {"accepted": acc, "rejected": rej, "states": r["states"], "distinct": r["distinct"],
-            "out": r["out"], "wall": r["wall"], "file": tf}
+    for c0 in range(0, len(traces), chunk):
+        part = traces[c0:c0 + chunk]
+        with open(tf, "w") as f:
+            for t in part:
+                f.write(json.dumps(t) + "\n")
+        e = {"TRACES": tf}
+        if env:
+            e.update(env)
+        r = run_tlc(module, cfg=cfg or (module + ".cfg"), env=e, workers=workers, timeout=timeout)
+        if r["timeout"]:
+            r = run_tlc(module, cfg=cfg or (module + ".cfg"), env=e, workers=workers, timeout=3 * timeout)
+        if r["timeout"]:
+            raise ToolError("TLC timed out validating %s traces with %s" % (len(part), module))
+        if "No error has been found" not in r["out"]:
+            raise ToolError("TLC failed on %s:\n%s" % (module, r["out"][-3000:]))
+        a = set(re.findall(r'<<"ACCEPT", "([^"]+)"(?:, [^>]*)?>>', r["out"]))
+        acc |= a
+        rej += [t["id"] for t in part if t["id"] not in a]
+        states += r["states"]
+        distinct += r["distinct"]
+        wall += r["wall"]
+        out += r["out"]
+    return {"accepted": acc, "rejected": rej, "states": states, "distinct": distinct,
+            "out": out, "wall": wall, "file": tf}
 
 
 def diagnose_trace(module, trace, tag, cfg=None, env=None):
